@@ -4,4 +4,7 @@ Neg1 == -1
 RValsQ == {Neg1, 0, 2}
 RValsT == {Neg1, 0, 2, 3}
 GammasQ == {<<0, 1>>, <<1, 2>>, <<1, 1>>, <<2, 1>>, <<3, 1>>, <<3, 2>>}
+\* the cases embedded into long sequences: 0, 1/2, 1, 2 and discount factors close to 1: gamma^2500 is a normal float64 (7/8) / float32 (31/32, 33/32) number, so
+\* that cases with them can be embedded into long sequences
+GammasL == {<<0, 1>>, <<1, 2>>, <<7, 8>>, <<31, 32>>, <<1, 1>>, <<33, 32>>, <<2, 1>>}
 =============================================================================
